@@ -243,7 +243,9 @@ func c20r2(c *Ctx) {
 	}
 	e := c.P.Env(fn)
 	addr := "P:" + paramName(fn.Params[1])
-	pred := func(f Fact) bool { return !f.Lin && f.Pos && f.Atom == "call:vmcommon.IsSmartContractAddress("+addr+")" }
+	pred := func(f Fact) bool {
+		return !f.Lin && f.Pos && f.Atom == "call:vmcommon.IsSmartContractAddress("+addr+")"
+	}
 	for _, r := range returnsOf(fn) {
 		rv := retval(r, 0)
 		construct := fmt.Sprintf("return %s @b%d", e.Term(rv), r.Block().Index)
